@@ -6,6 +6,7 @@ from sa.rules import cpp_rules as C
 from sa.rules import pipeline as P
 from sa.rules import ranges as RG
 from sa.rules import window_rules as WN
+from sa.rules import cpprange as CRX
 from sa.rules import validators as VX
 from sa.rules import bounds_rules as BR
 
@@ -45,6 +46,9 @@ def main(tier):
     chk.run("R-SUBALIGN", WN.subalign, cx.cpp, floor=2)
     chk.run("R-CLAMP", WN.clamp, cx.cpp, floor=3)
     chk.run("R-ALIGNCHECK", WN.aligncheck, cx.repo, floor=2)
+    chk.run("R-ARRAYOK", WN.arrayok, cx.cpp, floor=2)
+    # undefined behaviour (full-width shifts, signed overflow) in the constants and masks of the checked write path
+    chk.run("R-CPPRANGE", CRX.cpprange, cx.cpp, ub_only=True, floor=2000)
     chk.run("R-ELEMSIZE", VX.elemsize, cx.repo, cx.schema, cx.sites, clauses=("zero", "huge"), floor=3)
     chk.run("R-ARRAYELEM", WN.arrayelem, cx.cpp, floor=6)
     chk.run("R-MIRROR", C.mirror, cx.cpp, floor=8)
